@@ -226,6 +226,8 @@ def dfs(ctx, label, R, W, rounds, hold=False, prefixes=None, lines=True, max_run
 
         outcome = execute(sysdef, chooser)
         runs += 1
+        ctx.case_sample(dict(case_base, schedule=list(choices), outcome=outcome,
+                             threads=[t.name for t in sysdef.sched.threads]))
         transitions += len(choices)
         ctx.ev()
         max_readers = max(max_readers, sysdef.max_readers_in)
